@@ -449,6 +449,16 @@ def block_case(nProcs, grid, algo, order):
     bad = model.cover_defects(list(grid), bounds)
     if bad:
         return ('fail', bad[0], dict(bad[1], nBlocks=nB))
+    # one object asked for every rank in turn (the rank is a public attribute, None by default): the same blocks
+    try:
+        one = BlockDecomposition(nProcs, list(grid), algo, None, order)
+        for r in list(range(nProcs)) + list(range(nProcs - 1, -1, -1)):
+            one.gRank = r
+            got = one.localBounds
+            if [list(map(int, x)) for x in got] != [list(map(int, x)) for x in bounds[r]]:
+                return ('fail', 'bounds_depend_on_earlier_rank_queries', {'rank': r, 'observed': [list(map(int, x)) for x in got], 'fresh_object': [list(map(int, x)) for x in bounds[r]], 'nBlocks': nB})
+    except Exception as e:  # noqa: BLE001
+        return ('fail', 'rank_attribute_not_usable', {'error': repr(e)[:200]})
     return ('ok', tuple(nB), sum(1 for _, nl in bounds if min(nl) == 0))
 
 
